@@ -1,4 +1,7 @@
 import Replicon.Proofs.Client
+import Replicon.Proofs.WrapClient
+import Replicon.Proofs.SentVals
+import Replicon.Proofs.FrameVals
 /-
 C02 — Confirmed tick is truthful.
 
@@ -73,5 +76,124 @@ theorem C02_known_finding_F20_witness :
     let c2 := frame c1 [{ tick := 0, changes := [{ ent := 7, comps := [(0, 5)] }] }] []
     c1.acks = [0] ∧ c1.buffered = [] ∧ c2.world = [(0, { marked := true, comps := [(0, 5)], hist := some 0 })] := by
   decide
+
+/-- **Across the 32-bit wrap.**  The client model keeps ticks as unbounded naturals and applies a
+mutate record iff its tick is larger than the entity's confirmed tick; the code holds `u32` ticks
+and compares them in the wrapping order.  Whenever the message tick is less than half the counter
+range away from the confirmed tick of the entity the record names — in particular across the wrap
+point — the two decisions, and so the resulting client states, are the same. -/
+theorem C02_tick_decision_across_wrap (c : Client) (tick : Nat) (m : MsgEnt) (h : Cli.NearHist c tick m) :
+    Cli.applyMutEntW c tick m = Cli.applyMutEnt c tick m :=
+  Cli.applyMutEntW_eq c tick m h
+
+/-- … and the gate of `apply_mutate_messages` (a mutate message waits for its update message). -/
+theorem C02_gate_across_wrap (updateTick mUpdateTick : Nat) (h : Near mUpdateTick updateTick) :
+    Cli.readyW updateTick mUpdateTick = decide (mUpdateTick ≤ updateTick) :=
+  Cli.readyW_eq updateTick mUpdateTick h
+
+/-- The wrapping order is needed: with the residues compared as plain numbers a record of tick
+2^32 + 3 for an entity confirmed at tick 2^32 − 5 is skipped as outdated, while the model and the
+wrapping comparison apply it (the hypothesis of `C02_tick_decision_across_wrap` holds for this
+state).  This is the seeded change C02-e; the wrap-around cases of profile `sys` exhibit it on the
+implementation. -/
+theorem C02_raw_comparison_skips_newer :
+    Cli.NearHist Cli.wrapWitness 4294967299 { ent := 0, comps := [(0, 2)] } ∧
+    Cli.worldOf (Cli.applyMutEnt Cli.wrapWitness 4294967299 { ent := 0, comps := [(0, 2)] }) =
+      [(0, { marked := true, comps := [(0, 2)], hist := some 4294967299 })] ∧
+    Cli.worldOf (Cli.applyMutEntW Cli.wrapWitness 4294967299 { ent := 0, comps := [(0, 2)] }) =
+      [(0, { marked := true, comps := [(0, 2)], hist := some 4294967299 })] ∧
+    Cli.worldOf (Cli.applyMutEntRaw Cli.wrapWitness 4294967299 { ent := 0, comps := [(0, 2)] }) = Cli.wrapWitness.world :=
+  Cli.raw_skips_newer
+
+/-- **What an update message says about a component is the server's current value — over ALL
+histories, across both models** (`Proofs/SentVals.lean`).  After any history of the joint server
+model (entity identifiers not reused, a stopped server sees a frame before a restart, no pre-spawn
+mappings; rules for distinct components), in the next frame of a running server, for every client
+and every record of the CHANGES section of the update message sent to it — a new entity, an
+insertion, or the pending mutations that must travel with an insertion or a removal — the record
+names an entity of the server's world and the client model that was fed the session's update
+messages in order and applies this one has, for every plain component kind the record names,
+exactly the value the component has on the server in that tick.  (With `C02_record_complete`: the
+record names every every-tick component changed since the server's belief.) -/
+theorem C02_history_update_record_values (s0 : Server) (hw : s0.world = []) (hc0 : s0.clients = []) (hb : s0.removalBuf = [])
+    (hrates : (s0.rates.map (·.1)).Nodup)
+    (ops : List Joint.Op) (hl : Joint.Legal2 { srv := s0 } ops) (ticked : Bool) (ms : Nat)
+    (hr : (Joint.run { srv := s0 } ops).1.srv.running = true)
+    (z : Nat × Cli) (hz : z ∈ (Joint.run { srv := s0 } ops).1.srv.clients)
+    (u : Update)
+    (hu : (runClient (preRun (Joint.run { srv := s0 } ops).1.srv ticked ms)
+        ((preRun (Joint.run { srv := s0 } ops).1.srv ticked ms).now + 1) (preG (Joint.run { srv := s0 } ops).1.srv ms z.2)).2.update = some u)
+    (r : MsgEnt) (hrec : r ∈ u.changes) :
+    ∃ ent, (r.ent, ent) ∈ (Joint.run { srv := s0 } ops).1.srv.world ∧
+      ∀ k, k ∈ r.comps.map (·.1) →
+        (Joint.replay ((Joint.runLog { srv := s0 } (fun _ => []) ops).2 z.1)).entityComps.contains k = false →
+        ∃ rt comp, (k, rt, comp) ∈ present (Joint.run { srv := s0 } ops).1.srv ent ∧
+          Cli.valOn (Cli.applyUpdate (Joint.replay ((Joint.runLog { srv := s0 } (fun _ => []) ops).2 z.1)) u) r.ent k = some comp.val :=
+  Joint.history_update_record_values s0 hw hc0 hb hrates ops hl ticked ms hr z hz u hu r hrec
+
+/-- **… and what a mutate message says**: every record `collect_changes` puts into the mutate
+messages of a run (any server state, any client) names an entity of the server's world and
+carries, for each of its kinds, the component's current value; a well-formed receiver that maps
+the entity to a live entity confirmed at an older tick has exactly these values afterwards, and
+every other value of every entity is unchanged (all or nothing per record: `C02_record_atomic`). -/
+theorem C02_mutate_record_values (p : Server) (hrates : (p.rates.map (·.1)).Nodup)
+    (x : Nat × Cli) (r : MsgEnt) (hr : r ∈ (runClient p (p.now + 1) x.2).2.mutEnts)
+    (c : Client) (wf : WF c) (tick : Nat) (ce : Nat) (cent : CEnt) (last : Nat)
+    (hs : aget c.s2c r.ent = some ce) (hw : aget c.world ce = some cent) (hh : cent.hist = some last) (hnew : tick > last) :
+    ∃ ent c', (r.ent, ent) ∈ p.world ∧ Cli.applyMutEnt c tick r = .ok c' ∧ WF c' ∧
+      (∀ k, k ∈ r.comps.map (·.1) → c.entityComps.contains k = false →
+        ∃ rt comp, (k, rt, comp) ∈ present p ent ∧ Cli.valOn c' r.ent k = some comp.val) ∧
+      (∀ se k, c.entityComps.contains k = false → ¬ (aget c.s2c se = some ce ∧ k ∈ r.comps.map (·.1)) →
+        Cli.valOn c' se k = Cli.valOn c se k) :=
+  frame_mutate_record_values p hrates x r hr c wf tick ce cent last hs hw hh hnew
+
+/-- Non-vacuity of `C02_history_update_record_values`: entity 5 is known to client 0; an insertion
+of kind 1 and a mutation of kind 0 in the same tick travel in one CHANGES record, and the replayed
+client has the server's values 9 and 8 afterwards. -/
+example :
+    let s0 : Server := { rates := [(0, .every), (1, .every)] }
+    let ops : List Joint.Op :=
+      [.start, .connect 0 true, .spawn 5 true [(0, 7)], .frame true 10 (fun _ => []), .insert 5 1 9, .mutate 5 0 8]
+    Joint.Legal2 { srv := s0 } ops ∧ (Joint.run { srv := s0 } ops).1.srv.running = true ∧
+    ((Joint.frame (Joint.run { srv := s0 } ops).1 true 10 (fun _ => [])).2.1.map fun o =>
+      (o.1, o.2.update.map fun u => u.changes.map fun m => (m.ent, m.comps))) = [(0, some [(5, [(1, 9), (0, 8)])])] ∧
+    Cli.valOn (Joint.replay ((Joint.runLog { srv := s0 } (fun _ => []) (ops ++ [.frame true 10 (fun _ => [])])).2 0)) 5 0 = some 8 ∧
+    Cli.valOn (Joint.replay ((Joint.runLog { srv := s0 } (fun _ => []) (ops ++ [.frame true 10 (fun _ => [])])).2 0)) 5 1 = some 9 := by
+  refine ⟨by decide, by decide, by rfl, by decide, by decide⟩
+
+/-- **An update message changes only the values it names** (`Proofs/UpdateVals.lean`): for a
+well-formed client and an update message without pre-spawn mappings whose records have distinct
+kinds, the plain component `k` of server entity `se` keeps its value unless `se` is in DESPAWNS,
+a REMOVALS record names `se` and `k`, or a CHANGES record for `se` names `k`. -/
+theorem C02_update_changes_only_named_values (c : Client) (u : Update) (wf : WF c) (hm : u.mappings = []) (se k : Nat)
+    (hplain : c.entityComps.contains k = false)
+    (hd : se ∉ u.despawns) (hr : ∀ r ∈ u.removals, ¬ (se = r.1 ∧ k ∈ r.2))
+    (hnd : ∀ m ∈ u.changes, (m.comps.map (·.1)).Nodup)
+    (hc : ∀ m ∈ u.changes, ¬ (se = m.ent ∧ k ∈ m.comps.map (·.1))) :
+    Cli.valOn (Cli.applyUpdate c u) se k = Cli.valOn c se k :=
+  Cli.applyUpdate_vals_other c u wf hm se k hplain hd hr hnd hc
+
+/-- **Every component the run has something to say about is named in a record**
+(`Proofs/FrameVals.lean`; any server state, any client, any visible entity): a present component is
+named by the entity's CHANGES record or by its mutate record — whose values are the current ones,
+`C02_history_update_record_values`, `C02_mutate_record_values` — unless the entity is known to the
+client at some tick `t`, is not fresh, and the component was neither added in this tick window nor
+changed after `t` with a send rate that fires in this tick.  Together with
+`C02_update_changes_only_named_values`: what is not named is not touched, and what is not named
+has not changed since the server's belief. -/
+theorem C02_pending_component_is_named (s : Server) (thisRun : Nat) (cl : Cli) (e : Nat) (ent : SEnt) (m : Nat)
+    (hv : visState s cl e ≠ Vis.State.hidden) (k : Nat) (r : Rate) (comp : Comp)
+    (hp : (k, r, comp) ∈ present s ent) :
+    (∃ rec, (collectEntity s thisRun cl e ent m).toUpdate = some rec ∧ k ∈ rec.comps.map (·.1)) ∨
+    (∃ rec, (collectEntity s thisRun cl e ent m).toMutate = some rec ∧ k ∈ rec.comps.map (·.1)) ∨
+    (∃ t, aget cl.mutTick e = some t ∧ ¬ m > s.lastRun ∧ visState s cl e ≠ Vis.State.gained ∧
+      ¬ comp.added > s.lastRun ∧ ¬ (comp.changed > t ∧ r.sendMutations s.tick = true)) := by
+  by_cases hpath : compPath s (aget cl.mutTick e) (decide (m > s.lastRun) || decide (visState s cl e = Vis.State.gained)) r comp = Path.nothing
+  · obtain ⟨t, h1, h2, h3, h4⟩ := compPath_nothing s _ _ r comp hpath
+    simp only [Bool.or_eq_false_iff, decide_eq_false_iff_not] at h2
+    exact Or.inr (Or.inr ⟨t, h1, h2.1, h2.2, h3, h4⟩)
+  · rcases collect_named s thisRun cl e ent m hv k r comp hp hpath with h | h
+    · exact Or.inl h
+    · exact Or.inr (Or.inl h)
 
 end Replicon.C02
